@@ -236,14 +236,17 @@ def make_host(kind, tag, calls):
         if kind == 'BareScriptRuntimeError':
             raise impl.bs.RuntimeError('host says stop ' + tag)
         exc = {'CustomError': CustomError}.get(kind) or getattr(__import__('builtins'), kind)
+        if len(calls) % 3 == 0:
+            raise exc()             # (an exception without any message: `raise KeyError`, a failing `assert`, `raise NotImplementedError`)
         raise exc('boom ' + tag)
     fn.__name__ = 'host_' + tag
     return fn
 
 
-def check_host_failures(kinds, in_function, nested, debug):
-    """kinds: list of host function behaviours, called in order as hf0(), hf1(), ..."""
-    d = {'kind': 'host', 'kinds': kinds, 'in_function': in_function, 'nested': nested, 'debug': debug}
+def check_host_failures(kinds, in_function, nested, debug, log_mode='fn', with_include=False):
+    """kinds: list of host function behaviours, called in order as hf0(), hf1(), ...; log_mode: the host passes a log function, none at all, or
+    an explicit null; with_include: the script first includes a file that lint has something to say about (debug mode reports that through logFn)."""
+    d = {'kind': 'host', 'kinds': kinds, 'in_function': in_function, 'nested': nested, 'debug': debug, 'log_mode': log_mode, 'with_include': with_include}
     calls = []
     g = {'hf%d' % i: make_host(k, 'hf%d' % i, calls) for i, k in enumerate(kinds)}
     lines = []
@@ -255,10 +258,18 @@ def check_host_failures(kinds, in_function, nested, debug):
         lines = ['function run():'] + ['    ' + ln for ln in lines] + ["    return 'done'", 'endfunction', 'return run()']
     else:
         lines.append("return 'done'")
+    if with_include:
+        lines.insert(0, "include 'lintwarn.bare'")
     src = '\n'.join(lines)
     d['source'] = src
     log = []
     opts = {'globals': g, 'logFn': log.append, 'maxStatements': 2000}
+    if log_mode == 'absent':
+        del opts['logFn']
+    elif log_mode == 'none':
+        opts['logFn'] = None
+    if with_include:
+        opts['fetchFn'] = lambda req: "function unusedArg(aa, bb):\n    cc = 1\n    return aa\nendfunction\n" if req['url'] == 'lintwarn.bare' else None
     if debug:
         opts['debug'] = True
     model = impl.bs.parse_script(src)
@@ -289,6 +300,9 @@ def check_host_failures(kinds, in_function, nested, debug):
             got_log.append(m)
     if res != exp_res:
         raise Violation('script ended with %r, expected %r' % (res, exp_res), d, 'host-outcome')
+    if log_mode != 'fn':
+        return
+    got_log = [m for m in got_log if not (isinstance(m, str) and m.startswith('BareScript: Include "lintwarn.bare"')) and not (isinstance(m, str) and m.startswith('BareScript:     '))]
     if got_log != exp_log:
         raise Violation('log is %r, expected %r' % (got_log, exp_log), d, 'host-log' + ('-debug' if debug else '-nodebug'))
 
@@ -571,12 +585,14 @@ def run_shard(ctx, spec):
                     continue
                 ctx.case(digest([name, args, debug]), True, ['fn:%s:%s' % (name, 'failed' if failed else 'ok'), 'unallocatable-result'], {'fn': name, 'args': args})
 
-        def hprop(kinds, in_function, nested, debug):
-            check_host_failures(kinds, in_function, nested, debug)
-            ctx.case(digest([kinds, in_function, nested, debug]), any(k != 'ok' for k in kinds),
-                     ['host', 'debug' if debug else 'no-debug', 'in-function' if in_function else 'top-level'] + ['host:' + k for k in set(kinds)],
-                     {'kinds': kinds, 'in_function': in_function, 'nested': nested, 'debug': debug})
-        run_hypothesis(ctx, hprop, [st.lists(st.sampled_from(HOST_KINDS), min_size=1, max_size=6), st.booleans(), st.booleans(), st.booleans()],
+        def hprop(kinds, in_function, nested, debug, log_mode, with_include):
+            check_host_failures(kinds, in_function, nested, debug, log_mode, with_include)
+            ctx.case(digest([kinds, in_function, nested, debug, log_mode, with_include]), any(k != 'ok' for k in kinds),
+                     ['host', 'debug' if debug else 'no-debug', 'in-function' if in_function else 'top-level', 'logFn:' + log_mode] + ['host:' + k for k in set(kinds)] +
+                     (['include-with-lint-warnings'] if with_include else []),
+                     {'kinds': kinds, 'in_function': in_function, 'nested': nested, 'debug': debug, 'log_mode': log_mode})
+        run_hypothesis(ctx, hprop, [st.lists(st.sampled_from(HOST_KINDS), min_size=1, max_size=6), st.booleans(), st.booleans(), st.booleans(),
+                                    st.sampled_from(['fn', 'fn', 'absent', 'none']), st.sampled_from([False, False, True])],
                        spec['n'], salt=40)
         return
 
@@ -649,7 +665,7 @@ def replay(detail):
     elif k == 'recursion':
         check_recursion(detail['shape'], detail['use'], detail['n'], detail['debug'], detail['via_expression'])
     elif k == 'host':
-        check_host_failures(detail['kinds'], detail['in_function'], detail['nested'], detail['debug'])
+        check_host_failures(detail['kinds'], detail['in_function'], detail['nested'], detail['debug'], detail.get('log_mode', 'fn'), detail.get('with_include', False))
     elif k == 'fetch':
         check_fetch([tuple(x) for x in detail['items']], detail['as_objects'], detail['debug'], detail['with_url_fn'])
     elif k == 'result':
